@@ -8,6 +8,9 @@
  *  ops:  A<slot>:<n>      acquire n bytes          C<slot>:<k>x<n>  calloc(k, n)
  *        R<slot>:<n>      realloc to n bytes (n = 0 releases)       F<slot>   release
  *        Q                query bytes_active / bytes_reserved       P         schedule point
+ *  SBA <mt> <parent>: parent 0 = an allocator with all four entry points, 1 = acquire/release only (the two mandatory ones),
+ *  2 = no calloc entry, 3 = no realloc entry.  Sizes of a gigabyte and more are address space only (vh_core.h VH_HUGE): their
+ *  first and last 4096 bytes are written and checked, and they are logged as 10^9.
  * Every block is filled with an id-derived pattern over its REQUESTED size; after every operation the calling
  * thread re-checks the patterns of all blocks that are not in the middle of another thread's operation. */
 #include "vh_core.h"
@@ -42,8 +45,14 @@ static int nthr;
 static uint8_t pat(int id, size_t i) {
     return (uint8_t)(id * 31 + i * 7 + 3);
 }
+/* the indices of a block that are written and checked: all of them, or the two edges of an address-space-only block */
+#define FOR_SPAN(i, from, n)                                                                                           \
+    for (size_t i = (from); i < (n); i = ((n) >= VH_HUGE && i + 1 == VH_EDGE) ? (n)-VH_EDGE : i + 1)
+static long long lsz(size_t n) {
+    return n > 1000000000u ? 1000000000ll : (long long)n;
+}
 static void fill(struct blk *b, size_t from) {
-    for (size_t i = from; i < b->n; ++i) {
+    FOR_SPAN(i, from, b->n) {
         b->p[i] = pat(b->id, i);
     }
 }
@@ -54,7 +63,7 @@ static int count_bad(void) {
         if (!b->p || b->busy) {
             continue;
         }
-        for (size_t i = 0; i < b->n; ++i) {
+        FOR_SPAN(i, 0, b->n) {
             if (b->p[i] != pat(b->id, i)) {
                 bad++;
                 break;
@@ -130,7 +139,7 @@ static void do_ops(struct prog *pg) {
             uint8_t *p = op[0] == 'A' ? aws_mem_acquire(sba, n) : aws_mem_calloc(sba, a, b);
             int zero = 1;
             if (op[0] == 'C') {
-                for (size_t j = 0; j < n; ++j) {
+                FOR_SPAN(j, 0, n) {
                     zero &= p[j] == 0;
                 }
             }
@@ -140,7 +149,7 @@ static void do_ops(struct prog *pg) {
             fill(bl, 0); /* the whole requested size is writable (ASan watches the page end / parent block end) */
             vh_begin("Acq");
             vh_int("id", bl->id);
-            vh_int("n", (long long)n);
+            vh_int("n", lsz(n));
             vh_int("calloc", op[0] == 'C');
             vh_int("zero", zero);
             where(p);
@@ -164,8 +173,8 @@ static void do_ops(struct prog *pg) {
             bl->busy = true;
             vh_begin("ReallocBegin");
             vh_int("id", bl->id);
-            vh_int("nold", (long long)old);
-            vh_int("nnew", (long long)nn);
+            vh_int("nold", lsz(old));
+            vh_int("nnew", lsz(nn));
             vh_end();
             void *p = bl->p;
             int rc = aws_mem_realloc(sba, &p, old, nn);
@@ -174,7 +183,7 @@ static void do_ops(struct prog *pg) {
             bl->p = p;
             if (p) {
                 size_t keep = old < nn ? old : nn;
-                for (size_t j = 0; j < keep; ++j) {
+                FOR_SPAN(j, 0, keep) {
                     prefix &= bl->p[j] == pat(bl->id, j);
                 }
                 bl->n = nn;
@@ -229,7 +238,7 @@ static void scenario(char **lines, int nlines) {
     nthr = 0;
     next_id = 0;
     npages = 0;
-    int mt = 0;
+    int mt = 0, parent_kind = 0;
     for (int i = 0; i < nlines; ++i) {
         char *dup = strdup(lines[i]);
         char *save = NULL;
@@ -237,6 +246,8 @@ static void scenario(char **lines, int nlines) {
         if (!tok) {
         } else if (strcmp(tok, "SBA") == 0) {
             mt = atoi(strtok_r(NULL, " ", &save));
+            char *pk = strtok_r(NULL, " ", &save);
+            parent_kind = pk ? atoi(pk) : 0;
         } else if (strcmp(tok, "MAIN") == 0) {
             parse_ops(&mainp, &save);
         } else if (strcmp(tok, "POST") == 0) {
@@ -248,7 +259,16 @@ static void scenario(char **lines, int nlines) {
         }
         free(dup);
     }
-    sba = aws_small_block_allocator_new(vh_alloc(), mt != 0);
+    /* the optional entry points of the parent (aws_allocator_is_valid asks for acquire and release only) */
+    static struct aws_allocator parent;
+    parent = *vh_alloc();
+    if (parent_kind == 1 || parent_kind == 2) {
+        parent.mem_calloc = NULL;
+    }
+    if (parent_kind == 1 || parent_kind == 3) {
+        parent.mem_realloc = NULL;
+    }
+    sba = aws_small_block_allocator_new(&parent, mt != 0);
     vh_begin("Setup");
     vh_int("mt", mt);
     vh_end();
